@@ -100,11 +100,11 @@ func init() {
 		"errors.New":                                effNonNilErr,
 		"strings.LastIndex":                         effStringsIndex,
 		"strings.HasPrefix":                         ufEffect("strings.HasPrefix", sBool),
-		"strings.ToLower": keepsAbsence("strings.ToLower"),
-		"strings.TrimSpace": keepsAbsence("strings.TrimSpace"),
+		"strings.ToLower":                           keepsAbsence("strings.ToLower"),
+		"strings.TrimSpace":                         keepsAbsence("strings.TrimSpace"),
 		"strings.Trim":                              ufEffect("strings.Trim", sStr),
 		"path.Clean":                                ufEffect("path.Clean", sStr),
-		"strings.Cut": effStringsCut,
+		"strings.Cut":                               effStringsCut,
 		"strconv.Atoi":                              ufTuple("strconv.Atoi", sInt, sIface),
 		"strconv.ParseInt":                          ufTuple("strconv.ParseInt", sInt, sIface),
 		"(*regexp.Regexp).MatchString":              effRegexpMatch,
@@ -174,7 +174,7 @@ func init() {
 		"github.com/opencontainers/go-digest.FromBytes":              effFromBytes,
 		"github.com/opencontainers/go-digest.Digester.Digest":        effDigesterDigest,
 		"(github.com/opencontainers/go-digest.Algorithm).Digester":   effNewDigester,
-		"os.Chtimes": effChtimes,
+		"os.Chtimes":   effChtimes,
 		"os.WriteFile": effWriteFile,
 		"os.Rename":    effRename,
 		// paths (C16)
@@ -838,6 +838,15 @@ func pathSafeFacts(fe *FnEnc, t Term) {
 func digestPart(name string) effectFn {
 	uf := ufEffect(name, sStr)
 	return func(fe *FnEnc, st *State, callee *ssa.Function, args []RV, pos token.Pos) []RV {
+		if !fe.dry {
+			// go-digest panics in Algorithm/Encoded/Hex when the string has no ':' separator: a digest that was not
+			// parsed or validated must not reach them (C15)
+			fe.declFun("digestOK", []string{sStr}, sBool)
+			fe.declFun("digest.hasSep", []string{sStr}, sBool)
+			d := fe.val(args[0])
+			fe.emit(fmt.Sprintf("(assert (=> (digestOK %s) (digest.hasSep %s)))", d.S, d.S))
+			fe.safety(st, "deppanic", pos, Term{app("digest.hasSep", d), sBool})
+		}
 		r := uf(fe, st, callee, args, pos)
 		if !fe.dry {
 			declPathFuns(fe)
@@ -961,7 +970,6 @@ func effFromBytes(fe *FnEnc, st *State, callee *ssa.Function, args []RV, pos tok
 	return one(d)
 }
 
-
 // os.WriteFile(path, data, perm): on success the file at path has been written once more (ghost counter WROTE per path)
 func effWriteFile(fe *FnEnc, st *State, callee *ssa.Function, args []RV, pos token.Pos) []RV {
 	srt := arrSort(sStr, sInt)
@@ -977,7 +985,6 @@ func effWriteFile(fe *FnEnc, st *State, callee *ssa.Function, args []RV, pos tok
 	return one(err)
 }
 
-
 // os.Rename(old, new): on success one more file has been moved to `new` (ghost counter RENAMED per destination path)
 func effRename(fe *FnEnc, st *State, callee *ssa.Function, args []RV, pos token.Pos) []RV {
 	srt := arrSort(sStr, sInt)
@@ -992,7 +999,6 @@ func effRename(fe *FnEnc, st *State, callee *ssa.Function, args []RV, pos token.
 	fe.setComp(st, "RENAMED", srt, tIte(tEq(err, nilIface), tStore(h, p, tArith("+", tSel(h, p), tInt(1))), h))
 	return one(err)
 }
-
 
 // str.contains(s, c): c occurs in s (uninterpreted; the facts below are all that is known about it)
 func declContains(fe *FnEnc) {
